@@ -210,6 +210,8 @@ def c01(proj, rep, tier):
     rep.floor('SH2 Euler-recursion reshape sites with an exact width function', n, 4)
     nopen, nfun = round3b.ax1_sm1_sinc1_vm1(proj, rep, MANIFOLD if tier == 'quick' else None)
     rep.floor('AX1 / SM1 / SINC1 / VM1 sweep: functions scanned (manifold)', nfun, 50)
+    n = round3b.rt1(proj, rep, MANIFOLD if tier == 'quick' else None)
+    round3b.so2_he1(proj, rep, MANIFOLD if tier == 'quick' else None)
     rep.assume('membership itself (unit norm, PSD, X^dagger X = I, simplex, interval) for all theta is value-level: not decided; '
                'known blind spots: float32 conditioning, formulas whose error keeps shapes, parity and backend agreement')
 
@@ -357,11 +359,15 @@ def c03(proj, rep, tier):
     n = adjoint.d1(proj, rep)
     rep.floor('D1 dispatch obligations', n, 17)
     n = circuit.u1(proj, rep)
-    rep.floor('U1 to_unitary', n, 1)
+    rep.floor('U1 to_unitary', n, 2)
     n = relabel.r1(proj, rep)
     rep.floor('R1 leg-relabelling contractions', n, 7)
     n = circuit.d5(proj, rep)
     rep.floor('D5 target-order assignments in the Circuit builders', n, 5)
+    n = round3b.lm1(proj, rep, ['numqi.sim'] if tier == 'quick' else None)
+    rep.floor('LM1 local memos inside loops (simulator)', n, 1)
+    n = round3b.so2_he1(proj, rep, ['numqi.sim'] if tier == 'quick' else None)
+    rep.floor('SO2 set-typed parameters of the simulator', n, 3)
     nl, na, nf = round3b.sim_sweeps(proj, rep)
     rep.floor('D6 sweeps over the gate list', nl, 5)
     rep.floor('NR1 apply_* primitives of the simulator', na, 5)
@@ -466,6 +472,9 @@ def c10(proj, rep, tier):
     rep.floor('N2 norms of (count, dim) samples in the random generators', n, 1)
     n = round3b.s8(proj, rep, None)
     rep.floor('S8 unseeded generator constructions in seed-accepting functions', n, 2)
+    n = round3b.s9(proj, rep, None)
+    rep.floor('S9 generator uses in seed-accepting methods', n, 6)
+    round3b.len1(proj, rep, None)
     rep.assume('calls through user callables (model(), gate.forward, theta0 callables) are not followed: the claim is '
                '"no seed leak in numqi\'s own code on the resolved paths"')
     rep.assume('bit-identical output additionally needs deterministic NumPy/LAPACK kernels (assumed)')
